@@ -150,10 +150,12 @@ impl<'a> CostEstimator<'a> {
                 let right_cardinality = self.estimate_output_cardinality(right);
 
                 left_cost
-                    + right_cost
-                    + left_cardinality
-                        .saturating_mul(right_cardinality)
-                        .saturating_mul(CostConstants::COST_PER_ROW_NESTED_LOOP)
+                    .saturating_add(right_cost)
+                    .saturating_add(
+                        left_cardinality
+                            .saturating_mul(right_cardinality)
+                            .saturating_mul(CostConstants::COST_PER_ROW_NESTED_LOOP),
+                    )
             }
             PhysicalOperator::Projection { input, .. } => {
                 self.estimate_cost(input) + CostConstants::COST_PER_PROJECTION
